@@ -348,7 +348,8 @@ theorem Q_step {s : State} {x : Ext} (hq : Q s x) (hi : Inv s) (op : Op) : Q (st
     exact observe_nextTxId s h ev
   | exec n =>
     simp only [step, Ext.next]
-    unfold doExec
+    rw [doExec_eq]
+    unfold doExecStd
     repeat' split
     all_goals first
       | exact hq
@@ -423,7 +424,7 @@ theorem step_settled_calls (s : State) (op : Op) :
     simp only [step, endBlock_eq]
     exact fun e he => Or.inl he
   | exec n =>
-    simp only [step]; unfold doExec
+    simp only [step]; rw [doExec_eq]; unfold doExecStd
     split
     · exact fun e he => Or.inl he
     · split
